@@ -161,4 +161,29 @@ theorem assignAll_spec : ∀ (f : Forest) (pts : List EPt) (a : ESArea) (p : EPt
         have : boxContains b.box p = false := by simpa using h1.2
         exact ⟨h1.1, a', by simp [this, h2], h3⟩
 
+/-- conversely every offered point that `assign` sends to a leaf is in the list handed to that leaf -/
+theorem assignAll_complete : ∀ (f : Forest) (pts : List EPt) (p : EPt) (a : ESArea), p ∈ pts → f.assign p = some a →
+    ∃ ps, (a, ps) ∈ f.assignAll pts ∧ p ∈ ps
+  | .nil, _, _, _, _, h => by simp [Forest.assign] at h
+  | .cons b ch sib, pts, p, a, hp, h => by
+      simp only [Forest.assign] at h
+      simp only [Forest.assignAll, List.mem_append]
+      by_cases hc : boxContains b.box p = true
+      · rw [if_pos hc] at h
+        have hpf : p ∈ pts.filter (boxContains b.box) := List.mem_filter.2 ⟨hp, hc⟩
+        by_cases hn : ch.isNil = true
+        · rw [if_pos hn] at h
+          simp only [Option.some.injEq] at h
+          subst h
+          exact ⟨_, Or.inl (by rw [if_pos hn]; exact List.mem_cons_self ..), hpf⟩
+        · rw [if_neg hn] at h
+          obtain ⟨ps, h1, h2⟩ := assignAll_complete ch _ p a hpf h
+          exact ⟨ps, Or.inl (by rw [if_neg hn]; exact h1), h2⟩
+      · rw [if_neg hc] at h
+        have hpf : p ∈ pts.filter (fun q => !boxContains b.box q) := by
+          rw [List.mem_filter]
+          exact ⟨hp, by simpa using hc⟩
+        obtain ⟨ps, h1, h2⟩ := assignAll_complete sib _ p a hpf h
+        exact ⟨ps, Or.inr h1, h2⟩
+
 end SparseSpace
